@@ -66,8 +66,8 @@ PROPS = {
                 level_note='to_upper/to_lower/url_decode/regex_replace/json_parse and the String arms of parse_* delegate to std / third-party code (trusted); composition laws are not decided',
                 not_under_contract=['to_upper', 'to_lower', 'url_decode', 'regex_replace', 'json_parse', 'parse_* on strings', 'now', 'parse_epoch'],
                 explanation='All string-valued obligations are bounded checks (strings <= 3 bytes, <= 3 arguments); the numeric/char converter obligations are complete over their payload domain. Bounded obligations are counted under bounded_obligations, never under discharged.'),
-    'C06': dict(level='proof', level_text='the exit-code folding functions are proved equal to the severity order stated by the property, for all i32 arguments', level_note='the inline folds in Validate::execute / evaluate_rule / main are not under contract', vgroups=['exit'], kunits=[], assumptions=COMMON_ASSUME,
-                not_under_contract=['Validate::execute exit-code folding (inline, I/O)', 'evaluate_rule', 'main'], explanation=''),
+    'C06': dict(level='proof', level_text='the exit-code folding functions are proved equal to the severity order stated by the property, for all i32 arguments', level_note='the inline folds in Validate::execute / evaluate_rule / main are not under contract', vgroups=['exit', 'validate'], kunits=[], assumptions=COMMON_ASSUME,
+                not_under_contract=['Validate::execute exit-code folding (inline `if status != SUCCESS { exit_code = status }`, I/O)', 'StructuredEvaluator::evaluate / CommonStructuredReporter::report (closures, I/O, &mut unsizing)', 'main'], explanation=''),
 }
 
 HOOK_COMMITS = ['cb466a2']
